@@ -171,7 +171,7 @@ func tagsOfSpec(fs *FuncSpec) map[string]bool {
 // structural obligations: the contract-level obligations of a function (as opposed to per-site safety and
 // precondition obligations); those of a dependency are all solved with the property that relies on it.
 func isStructural(name string) bool {
-	for _, p := range []string{"post:", "emits", "inv-init:", "inv-pres:", "frame:", "ho:", "complete", "disjoint", "lemma:"} {
+	for _, p := range []string{"post:", "emits", "inv-init:", "inv-pres:", "frame:", "ho:", "complete", "disjoint", "lemma:", "implements:"} {
 		if strings.HasPrefix(name, p) {
 			return true
 		}
@@ -295,6 +295,9 @@ func cmdCheck(args []string) int {
 	}
 	for _, dir := range pc.SweepPkgs {
 		for k, fn := range e.funcs {
+			if strings.Contains(k, implSep+"(") {
+				continue // implements checks are reached through the interface contracts they discharge
+			}
 			if fn.Pkg != nil && e.byPath[fn.Pkg.Pkg.Path()] != nil && e.byPath[fn.Pkg.Pkg.Path()].Dir == dir {
 				if pc.SkipClosures && fn.Parent() != nil {
 					continue
@@ -342,6 +345,13 @@ func cmdCheck(args []string) int {
 	var undecided []string
 	usedFindings := map[int]bool{}
 
+	// interface-method contracts used at call sites of this property's functions, and how each implementation
+	// of them is checked (implements.go)
+	ifaceKeys := map[string]bool{}
+	for _, pr := range e.implPairs {
+		ifaceKeys[pr.Iface] = true
+	}
+	usedIface := map[string]bool{}
 	// dependency closure: contracted callees whose contracts the property's functions rely on
 	isDep := map[string]bool{}
 	queue := append([]string(nil), keys...)
@@ -379,6 +389,17 @@ func cmdCheck(args []string) int {
 		rs := solveFunc(fr, fopts)
 		if !pc.NoDependencies {
 			for _, u := range fr.UsedSpecs {
+				// an interface-method contract used at a call site: every implementation in the repository is
+				// checked against it (implements.go)
+				if _, isIface := ifaceKeys[u]; isIface {
+					usedIface[u] = true
+				}
+				for _, ik := range e.ifaceImpls[u] {
+					if !funcSet[ik] {
+						funcSet[ik] = true
+						queue = append(queue, ik)
+					}
+				}
 				sp := e.funcSpecs[u]
 				if sp == nil || sp.Trusted || !sp.IsFunctional() || e.funcs[u] == nil || funcSet[u] {
 					continue
@@ -604,6 +625,7 @@ func cmdCheck(args []string) int {
 			"bounded":                pc.Bounded,
 			"bounded_cases":          boundedCases,
 			"contracts_read_from":    e.contractSource,
+			"interface_contracts":    implSummary(e, usedIface, funcSet),
 			"integers":               "Go integers are mathematical integers constrained to their range; wrap-around is explicit for sized types, int/int64 arithmetic is mathematical (listed when used)",
 			"explanation":            "every obligation is a negated verification condition generated from the SSA of /repo's working tree and refuted by an SMT solver; 'obligations' counts the obligations claimed as proved on this run - obligations that fail and are listed as open findings in known_findings.txt are reported as KNOWN-FINDING, listed under known_finding_obligations and not counted",
 		},
@@ -746,4 +768,32 @@ func runBounded(repo, verif string, bt BoundedTest) (map[string]bool, string, er
 		return nil, out, fmt.Errorf("no test results (build failure?)")
 	}
 	return res, out, nil
+}
+
+// implSummary lists, for every interface-method contract this run relied on, each implementation in the
+// repository and how it was checked against the contract (or why it stays assumed).
+func implSummary(e *Engine, used map[string]bool, verified map[string]bool) []map[string]any {
+	var out []map[string]any
+	for _, pr := range e.implPairs {
+		if !used[pr.Iface] && !(pr.BodyKey != "" && verified[pr.BodyKey]) && !(pr.FrameRefinement && verified[pr.Impl]) {
+			continue
+		}
+		m := map[string]any{"interface_method": pr.Iface, "implementation": pr.Impl}
+		switch {
+		case pr.Unchecked != "":
+			m["status"] = "assumed"
+			m["reason"] = pr.Unchecked
+		case pr.BodyKey != "" && pr.FrameRefinement:
+			m["status"] = "checked: ensures clauses on the body (" + pr.BodyKey + "), frame by refinement of the method's own proved frame (implements:frame)"
+		case pr.BodyKey != "":
+			m["status"] = "checked: body verified against the interface contract (" + pr.BodyKey + ")"
+		default:
+			m["status"] = "checked: frame by refinement of the method's own proved frame (implements:frame); the interface contract has no ensures clause"
+		}
+		if pr.BodyKey != "" && !verified[pr.BodyKey] || pr.BodyKey == "" && pr.FrameRefinement && !verified[pr.Impl] {
+			m["in_this_run"] = false
+		}
+		out = append(out, m)
+	}
+	return out
 }
